@@ -336,15 +336,17 @@ def run_case(gfapy, case, pool, cid):
 
 
 TRACE_CFG = "SPECIFICATION Spec\nCHECK_DEADLOCK FALSE\n"
+EXPLAINED = []          # replay only: what TraceGroups says it expects
 
 
-def validate_records(recs, pool, wd):
-    """One single-worker TLC over one file of records. Returns {case id: [clauses]}."""
+def validate_records(recs, pool, wd, explain=False):
+    """One single-worker TLC over one file of records. Returns ({case id: [clauses]}, stats)."""
     os.makedirs(wd, exist_ok=True)
     f = os.path.join(wd, "trace.json")
     with open(f, "w") as fh:
         json.dump({"pool": pool.items, "cases": [{k: v for k, v in r.items() if k != "notes"} for r in recs]}, fh)
-    rc, out = tlc.run_tlc("TraceGroups", TRACE_CFG, wd, env={"TRACE_FILE": f}, workers=1, heap="1500m")
+    rc, out = tlc.run_tlc("TraceGroups", TRACE_CFG, wd, env={"TRACE_FILE": f, "GROUPS_EXPLAIN": "1" if explain else "0"},
+                          workers=1, heap="1500m")
     st = tlc.stats(out)
     if rc != 0 or st is None or "No error has been found" not in out:
         raise tlc.MachineryError("TraceGroups failed:\n" + "\n".join(out.splitlines()[-40:]))
@@ -355,6 +357,11 @@ def validate_records(recs, pool, wd):
         v = tlc.tla_value(raw)
         rej[v[1]] = sorted(v[2])
     os.remove(f)
+    del EXPLAINED[:]
+    if explain:
+        for ln in out.splitlines():
+            if ln.startswith('"EXPECT '):
+                EXPLAINED.append(json.loads(ln)[7:])
     return rej, st
 
 
@@ -544,20 +551,21 @@ def _run_single(case, name):
     _limits()
     pool = project.Pool()
     rec = run_case(gfapy, case, pool, 0)
-    rej, _ = validate_records([rec], pool, tlc.workdir(name))
+    rej, _ = validate_records([rec], pool, tlc.workdir(name), explain=True)
     return rec, rej.get(0, [])
 
 
 def replay(prop, v, path):
     case = v["case"]
-    rec, clauses = _run_single(case, "groups-replay")
+    rec, clauses = _run_single(case, "groups-replay-%d" % os.getpid())
     for l, e in zip(arrival(case), rec["ev"]):
         print("  add_line(%r) -> %s%s" % (l, e["res"], ("   items now: " + " ".join(x["id"] + x["o"] for x in e["gi"])
                                                          + "  tags: " + " ".join(e["gt"])) if l[0] in "OU" else ""))
     for a in _answers(rec):
         print("  " + a)
     print("  validate() ->", rec["val"], " notes:", rec["notes"])
-    print("  strict expectation:", [[c[0], c[2]] for c in case["cls"]])
+    for x in EXPLAINED:
+        print("  specification expects:", x)
     if clauses:
         print("REJECT clauses=%s" % ",".join(clauses))
         print("VIOLATION property=%s replay=%s" % (prop, path))
